@@ -635,16 +635,22 @@ func (s *sim) knownShapes() {
 			return
 		}
 		a := new(big.Int).Div(new(big.Int).Mul(room, big.NewInt(int64(r.Range(5, 9)))), big.NewInt(10))
-		b := new(big.Int).Add(new(big.Int).Sub(room, a), big.NewInt(int64(r.Range(1, 3))))
+		// excess 0: the two deposits land exactly on the capacity, which finalization accepts
+		excess := int64(r.Range(0, 3))
+		b := new(big.Int).Add(new(big.Int).Sub(room, a), big.NewInt(excess))
 		t1 := s.deposit(asset, a, depOpt{validate: true})
 		t2 := s.deposit(asset, b, depOpt{validate: true})
 		if r.Bool() {
-			s.snapshot([]int{t1.id, t2.id}, 1+r.Intn(lgNodes), false, 0)
-			t1.good, t2.good = false, false
+			s.snapshot([]int{t1.id, t2.id}, 1+r.Intn(lgNodes), excess == 0, 0)
+			if excess != 0 {
+				t1.good, t2.good = false, false
+			}
 		} else {
 			s.snapshot([]int{t1.id}, 1+r.Intn(lgNodes), true, 0)
-			s.snapshot([]int{t2.id}, 1+r.Intn(lgNodes), false, 0)
-			t2.good = false
+			s.snapshot([]int{t2.id}, 1+r.Intn(lgNodes), excess == 0, 0)
+			if excess != 0 {
+				t2.good = false
+			}
 		}
 	case 2: // two pending first deposits of an unseen asset with different (chain, asset key)
 		if s.info[6] != nil {
